@@ -110,9 +110,28 @@ func ToGroupID(name string, tags map[string]string, dims Dimensions) GroupID {
 		if i != 0 {
 			buf.WriteRune(',')
 		}
-		buf.WriteString(d)
+		writeGroupIDPart(&buf, d, true)
 		buf.WriteRune('=')
-		buf.WriteString(tags[d])
+		writeGroupIDPart(&buf, tags[d], false)
 	}
 	return GroupID(buf.String())
+}
+
+// writeGroupIDPart writes a tag name or value of a group ID.
+// The delimiters of the ID are escaped so that different groups never share an ID:
+// ',' and '\' everywhere, '=' in tag names (the first unescaped '=' ends the name).
+func writeGroupIDPart(buf *strings.Builder, s string, isName bool) {
+	if !strings.ContainsAny(s, ",\\=") {
+		buf.WriteString(s)
+		return
+	}
+	for i := 0; i < len(s); i++ {
+		switch c := s[i]; {
+		case c == ',' || c == '\\' || (isName && c == '='):
+			buf.WriteByte('\\')
+			buf.WriteByte(c)
+		default:
+			buf.WriteByte(c)
+		}
+	}
 }
